@@ -75,10 +75,18 @@ th!(c20_q_recv_data_progress_k2, 8, {
     recv_k2_step(0);
     kani::cover!(true, "end");
 });
-//# funcs=RecvTransaction::process_pdu(FileData),Segments::merge; bound=held (0,2),(4,6); 5 bytes from offset 1, 4 and 7; stubs=S1,S2,S3,S5
-th!(c20_t_recv_data_progress_k2_more, 8, {
+//# funcs=RecvTransaction::process_pdu(FileData),Segments::merge; bound=held (0,2),(4,6); 5 bytes from offset 1; stubs=S1,S2,S3,S5
+th!(c20_t_recv_data_progress_k2_off1, 8, {
     recv_k2_step(1);
+    kani::cover!(true, "end");
+});
+//# funcs=RecvTransaction::process_pdu(FileData),Segments::merge; bound=held (0,2),(4,6); 5 bytes from offset 4; stubs=S1,S2,S3,S5
+th!(c20_t_recv_data_progress_k2_off4, 8, {
     recv_k2_step(4);
+    kani::cover!(true, "end");
+});
+//# funcs=RecvTransaction::process_pdu(FileData),Segments::merge; bound=held (0,2),(4,6); 5 bytes from offset 7; stubs=S1,S2,S3,S5
+th!(c20_t_recv_data_progress_k2_off7, 8, {
     recv_k2_step(7);
     kani::cover!(true, "end");
 });
@@ -182,7 +190,7 @@ th!(c20_q_send_progress_first, 12, { send_progress_step(5, 2, 0) });
 th!(c20_q_send_progress_last, 12, { send_progress_step(5, 2, 4) });
 //# funcs=SendTransaction::send_pdu(SendData),get_file_segment; bound=empty file, segment size 4; stubs=S1,S2,S3,S5; nocover=full segment
 th!(c20_q_send_progress_empty, 12, { send_progress_step(0, 4, 0) });
-//# funcs=SendTransaction::send_pdu(SendData),get_file_segment; bound=5-byte file, segment size 2, cursor 2 (middle segment); stubs=S1,S2,S3,S5
+//# funcs=SendTransaction::send_pdu(SendData),get_file_segment; bound=5-byte file, segment size 2, cursor 2 (middle segment); stubs=S1,S2,S3,S5; nocover=short last segment
 th!(c20_t_send_progress_middle, 12, { send_progress_step(5, 2, 2) });
-//# funcs=SendTransaction::send_pdu(SendData),get_file_segment; bound=3-byte file, segment size 4 (single short segment); stubs=S1,S2,S3,S5
+//# funcs=SendTransaction::send_pdu(SendData),get_file_segment; bound=3-byte file, segment size 4 (single short segment); stubs=S1,S2,S3,S5; nocover=full segment
 th!(c20_t_send_progress_l3_s4, 12, { send_progress_step(3, 4, 0) });
